@@ -15,7 +15,9 @@ import (
 	"strings"
 
 	"github.com/sarchlab/akita/v4/mem/mem"
+	"github.com/sarchlab/akita/v4/mem/vm"
 	"github.com/sarchlab/akita/v4/sim"
+	"github.com/sarchlab/mgpusim/v4/amd/driver"
 	pmcpkg "github.com/sarchlab/mgpusim/v4/amd/timing/pagemigrationcontroller"
 
 	"verifharness/vh"
@@ -790,6 +792,244 @@ func replay(in Case) Case {
 	return c
 }
 
+
+// ---- driver side: Driver.preparePageForMigration through the verif hook ----
+
+type DPage struct {
+	PID, PAddr, VAddr, Size, Device  uint64
+	Valid, Unified, Migrating, Pinned bool
+}
+
+type DProbe struct {
+	PID, VA uint64
+	Found   bool
+	Page    DPage
+}
+
+type DCase struct {
+	Log2      uint64              `json:"log2"`
+	PT        []DPage             `json:"pt"`
+	Free      map[string][]uint64 `json:"free"`
+	PID       uint64              `json:"pid"`
+	VA        uint64              `json:"va"`
+	GPU       uint64              `json:"gpu"`
+	Panicked  bool                `json:"panicked"`
+	New       DPage               `json:"new"`
+	Old       uint64              `json:"old"`
+	Probes    []DProbe            `json:"probes"`
+	FreeAfter map[string][]uint64 `json:"free_after"`
+	NGPU      int                 `json:"ngpu"`
+	Viol      string              `json:"viol"`
+	Coq       string              `json:"coq"`
+}
+
+func toDPage(p vm.Page) DPage {
+	return DPage{uint64(p.PID), p.PAddr, p.VAddr, p.PageSize, p.DeviceID, p.Valid, p.Unified, p.IsMigrating, p.IsPinned}
+}
+
+func (p DPage) Coq() string {
+	return fmt.Sprintf("(mkPage %d %d %d %d %s %d %s %s %s)", p.PID, p.PAddr, p.VAddr, p.Size, vh.CoqBool(p.Valid),
+		p.Device, vh.CoqBool(p.Unified), vh.CoqBool(p.Migrating), vh.CoqBool(p.Pinned))
+}
+
+func freeCoq(ngpu int, f map[string][]uint64) string {
+	var items []string
+	for dev := 1; dev <= ngpu; dev++ {
+		items = append(items, fmt.Sprintf("(%d, %s)", dev, vh.CoqNList(f[fmt.Sprint(dev)])))
+	}
+	return "[" + strings.Join(items, "; ") + "]"
+}
+
+func (c *DCase) coq() string {
+	pt := make([]string, len(c.PT))
+	for i, p := range c.PT {
+		pt[i] = p.Coq()
+	}
+	res := "None"
+	if !c.Panicked {
+		res = fmt.Sprintf("(Some (%s, %d))", c.New.Coq(), c.Old)
+	}
+	pr := make([]string, len(c.Probes))
+	for i, p := range c.Probes {
+		v := "None"
+		if p.Found {
+			v = "(Some " + p.Page.Coq() + ")"
+		}
+		pr[i] = fmt.Sprintf("(%d, %d, %s)", p.PID, p.VA, v)
+	}
+	return fmt.Sprintf("mkMCase %d [%s] %s %d %d %d %s [%s] %s", c.Log2, strings.Join(pt, "; "), freeCoq(c.NGPU, c.Free),
+		c.PID, c.VA, c.GPU, res, strings.Join(pr, "; "), freeCoq(c.NGPU, c.FreeAfter))
+}
+
+type known struct{ pid, va uint64 }
+
+// genDriver builds a real driver, allocates memory and migrates pages; every
+// call of preparePageForMigration becomes one case (state before, result,
+// state after), checked here against the property and later against the model.
+func genDriver(rng *vh.Rng) []DCase {
+	const log2 = 12
+	engine := sim.NewSerialEngine()
+	pt := vm.NewPageTable(log2)
+	d := driver.MakeBuilder().WithEngine(engine).WithPageTable(pt).WithLog2PageSize(log2).Build("Driver")
+	ngpu := 2 + rng.Intn(3)
+	for g := 0; g < ngpu; g++ {
+		port := sim.NewPort(nil, 1, 1, fmt.Sprintf("GPU%d.CP", g+1))
+		d.RegisterGPU(port, driver.DeviceProperties{CUCount: 4, DRAMSize: uint64(3+rng.Intn(10)) << log2})
+	}
+	ctxs := []*driver.Context{d.Init()}
+	if rng.Bool() {
+		ctxs = append(ctxs, d.Init())
+	}
+	var pages []known
+	alloc := func() {
+		defer func() { _ = recover() }() // a full device panics; the state stays usable for our purpose
+		ctx := ctxs[rng.Intn(len(ctxs))]
+		n := uint64(1 + rng.Intn(3))
+		var ptr driver.Ptr
+		if rng.Intn(3) == 0 {
+			ptr = d.AllocateUnifiedMemory(ctx, n<<log2)
+		} else {
+			d.SelectGPU(ctx, 1+rng.Intn(ngpu))
+			ptr = d.AllocateMemory(ctx, n<<log2)
+		}
+		for i := uint64(0); i < n; i++ {
+			pages = append(pages, known{uint64(ctx.VerifPID()), uint64(ptr) + i<<log2})
+		}
+	}
+	for i := 2 + rng.Intn(5); i > 0; i-- {
+		alloc()
+	}
+	free := func() map[string][]uint64 {
+		f := map[string][]uint64{}
+		for dev := 1; dev <= ngpu; dev++ {
+			l := d.VerifFreeList(dev)
+			if l == nil {
+				l = []uint64{}
+			}
+			f[fmt.Sprint(dev)] = l
+		}
+		return f
+	}
+	// an allocation that panics half way leaves pages behind: enumerate the
+	// address range instead of trusting the bookkeeping above
+	scan := func() []known {
+		var l []known
+		for _, x := range ctxs {
+			for v := uint64(1); v < 48; v++ {
+				if _, ok := pt.Find(x.VerifPID(), v<<log2); ok {
+					l = append(l, known{uint64(x.VerifPID()), v << log2})
+				}
+			}
+		}
+		return l
+	}
+	var out []DCase
+	for m := 1 + rng.Intn(4); m > 0; m-- {
+		c := DCase{Log2: log2, NGPU: ngpu, PT: []DPage{}, Probes: []DProbe{}}
+		pages = scan()
+		for _, k := range pages {
+			if p, ok := pt.Find(vm.PID(k.pid), k.va); ok {
+				c.PT = append(c.PT, toDPage(p))
+			}
+		}
+		c.Free = free()
+		ctx := ctxs[rng.Intn(len(ctxs))]
+		c.PID = uint64(ctx.VerifPID())
+		c.VA = uint64(1+rng.Intn(12)) << log2 // may be unmapped
+		if len(pages) > 0 && rng.Intn(6) > 0 {
+			k := pages[rng.Intn(len(pages))]
+			c.VA = k.va
+			for _, x := range ctxs {
+				if uint64(x.VerifPID()) == k.pid {
+					ctx = x
+					c.PID = k.pid
+				}
+			}
+		}
+		if rng.Intn(8) == 0 {
+			c.VA += uint64(1 + rng.Intn(4000)) // not page aligned
+		}
+		c.GPU = uint64(rng.Intn(ngpu))
+		if rng.Intn(12) == 0 {
+			c.GPU = uint64(ngpu) // no such device
+		}
+		func() {
+			defer func() {
+				if recover() != nil {
+					c.Panicked = true
+				}
+			}()
+			np, old := d.VerifPreparePageForMigration(c.VA, ctx, c.GPU)
+			c.New, c.Old = toDPage(np), old
+		}()
+		probes := append([]known{}, pages...)
+		probes = append(probes, known{c.PID, c.VA}, known{c.PID, c.VA + 7}, known{c.PID + 1, c.VA}, known{c.PID, 99 << log2})
+		for _, k := range probes {
+			p, ok := pt.Find(vm.PID(k.pid), k.va)
+			c.Probes = append(c.Probes, DProbe{PID: k.pid, VA: k.va, Found: ok, Page: toDPage(p)})
+		}
+		c.FreeAfter = free()
+		c.Viol = c.monitor()
+		c.Coq = c.coq()
+		out = append(out, c)
+		if c.Panicked {
+			break
+		}
+	}
+	return out
+}
+
+// monitor: C19's driver clause on what the real code did (aligned, mapped
+// address, target with a free page): the page now maps to a fresh page of the
+// target device and no other mapping changed.
+func (c *DCase) monitor() string {
+	mask := uint64(1)<<c.Log2 - 1
+	var before *DPage
+	for i := range c.PT {
+		if c.PT[i].PID == c.PID && c.PT[i].VAddr == c.VA {
+			before = &c.PT[i]
+		}
+	}
+	target := c.Free[fmt.Sprint(c.GPU+1)]
+	if c.VA&mask != 0 || before == nil || len(target) == 0 {
+		return ""
+	}
+	if c.Panicked {
+		return "preparePageForMigration panicked for a mapped page and a device with free pages"
+	}
+	if c.Old != before.PAddr {
+		return fmt.Sprintf("old physical address %d, page table said %d", c.Old, before.PAddr)
+	}
+	if c.New.Device != c.GPU+1 || !c.New.Migrating || c.New.VAddr != c.VA || c.New.PID != c.PID || c.New.PAddr != target[0] {
+		return fmt.Sprintf("new page %+v is not a fresh page of device %d", c.New, c.GPU+1)
+	}
+	for _, p := range c.Probes {
+		same := p.PID == c.PID && p.VA&^mask == c.VA
+		var was *DPage
+		for i := range c.PT {
+			if c.PT[i].PID == p.PID && c.PT[i].VAddr == p.VA&^mask {
+				was = &c.PT[i]
+			}
+		}
+		switch {
+		case same && (!p.Found || p.Page != c.New):
+			return fmt.Sprintf("lookup of the migrated page returns %+v", p.Page)
+		case !same && p.Found != (was != nil), !same && was != nil && p.Page != *was:
+			return fmt.Sprintf("mapping of (%d,%d) changed", p.PID, p.VA)
+		}
+	}
+	for dev, l := range c.FreeAfter {
+		b := c.Free[dev]
+		if dev == fmt.Sprint(c.GPU+1) {
+			b = b[1:]
+		}
+		if fmt.Sprint(l) != fmt.Sprint(b) {
+			return "free list of device " + dev + " changed unexpectedly"
+		}
+	}
+	return ""
+}
+
 func whoCoq(w int) string {
 	if w == 0 {
 		return "PA"
@@ -861,8 +1101,23 @@ func main() {
 	n := flag.Int("n", 100, "number of schedules")
 	out := flag.String("out", "", "output JSON file")
 	rep := flag.String("replay", "", "JSON file with cases to replay")
+	drvN := flag.Int("drv-n", 0, "number of driver scenarios (preparePageForMigration)")
+	drvOut := flag.String("drv-out", "", "output JSON file for the driver cases")
 	flag.Parse()
 	log.SetOutput(io.Discard) // the controllers log before they panic
+
+	if *drvOut != "" {
+		rng := vh.NewRng(*seed ^ 0x5eed)
+		dcs := []DCase{}
+		for i := 0; i < *drvN; i++ {
+			dcs = append(dcs, genDriver(rng.Fork())...)
+		}
+		data, _ := json.Marshal(dcs)
+		if err := os.WriteFile(*drvOut, data, 0o644); err != nil {
+			panic(err)
+		}
+		return
+	}
 
 	var cases []Case
 	if *rep != "" {
